@@ -41,6 +41,9 @@ pub struct NodeOpts {
     pub real_supervisor: bool,
     /// mimic src/bin/main.rs start-up (load key map, oplog validity, load dbs)
     pub load_from_disk: bool,
+    /// the address the node binds to when it differs from the (external) address its peers know it by (--tcp-address
+    /// 0.0.0.0:3014 --external-address node-a:3014, the usual container set-up); None = both are `addr`
+    pub bind_addr: Option<String>,
 }
 
 impl NodeOpts {
@@ -52,6 +55,7 @@ impl NodeOpts {
             real_loop: false,
             real_supervisor: false,
             load_from_disk: false,
+            bind_addr: None,
         }
     }
 }
@@ -88,7 +92,7 @@ impl Node {
         let dbs = Arc::new(Databases::new(
             USER.to_string(),
             PWD.to_string(),
-            opts.addr.clone(),
+            opts.bind_addr.clone().unwrap_or(opts.addr.clone()),
             opts.addr.clone(),
             sup_tx,
             repl_tx,
